@@ -95,8 +95,11 @@ pub fn gen_profile(rng: &mut Rng, focus: Focus, thorough: bool) -> Profile {
         }
         Focus::Aux => {
             p.f_aux = true;
-            p.f_out = rng.chance(0.9);
-            p.f_ambiguous_aux = rng.chance(0.1);
+            p.f_out = rng.chance(0.93);
+            p.f_ambiguous_aux = rng.chance(0.08);
+            // systems whose attribution the rule does not determine (NEPB / COGEN uses) stay a minority
+            p.f_nepb = rng.chance(0.12);
+            p.f_cogen = rng.chance(0.08);
             if p.n_systems == 1 && rng.chance(0.7) {
                 p.n_systems = 2 + rng.usize(3);
             }
@@ -391,9 +394,9 @@ pub fn gen_building(rng: &mut Rng, p: &Profile) -> Building {
 
         // --- SALIDA lines (outputs): REF absorbs (negative), the rest deliver (positive)
         let mut out_services: Vec<String> = Vec::new();
-        if p.f_out && rng.chance(0.85) {
+        if p.f_out && rng.chance(if p.f_aux { 0.95 } else { 0.85 }) {
             let mut srvs: Vec<String> = services.iter().map(|s| s.to_string()).collect();
-            if rng.chance(0.15) {
+            if srvs.len() > 1 && rng.chance(0.15) {
                 srvs.pop(); // one used service without declared output
             }
             if rng.chance(0.07) {
